@@ -401,7 +401,16 @@ def r12_8(ctx):
     sends = [(bi, t) for bi, t, p in b.calls() if p and p.endswith("DataChannel::send_event")]
     enq = [(bi, t) for bi, t, p in b.calls() if p and p.endswith("InboundStream::enqueue") and
            not (b.term_operand(t["a"][2])[0] == "call" and b.term_operand(t["a"][2])[1].endswith("Bytes::new"))]
-    r.need("reassembly append / take sites", min(len(appends), len(takes)), 1)
+    # `e_bit.then(|| take(&mut *buffer).freeze())`: the take lives in a closure, the E test is the receiver of `then`
+    then_takes = []
+    for bi, t, p in b.calls():
+        if p and p.endswith("bool>::then") and len(t["a"]) == 2:
+            cl = b.term_operand(t["a"][1])
+            if cl[0] == "closure" and ctx.facts.has_body(cl[1]) and any(pp and pp.endswith("mem::take") for _, _, pp in ctx.facts.body(cl[1]).calls()):
+                cond = b.term_operand(t["a"][0])
+                e_cond = mir.has(cond, lambda x: x[0] == "bin" and x[1] == "BitAnd" and mir.int_value(x[3]) == 0x01)
+                then_takes.append((bi, e_cond))
+    r.need("reassembly append / take sites", min(len(appends), len(takes) + len(then_takes)), 1)
     r.need("message delivery sites", len(sends) + len(enq), 3)
     gB = core.guard_edges(b, _flag_edge(0x02, True))
     gE = core.guard_edges(b, _flag_edge(0x01, True))
@@ -415,12 +424,21 @@ def r12_8(ctx):
         else:
             r.violate(PDP, "clear:reassembly", b.where(bi), "reassembly buffer cleared on a fragment that is not a B fragment: a multi-fragment message is truncated")
     # on the B edge the clear is passed before the append
+    notB_edges = set(core.guard_edges(b, _flag_edge(0x02, False)))
     for (sb, tgt) in gB:
         for ab in appends:
-            if b.path_to([tgt], ab, cut_blocks=set(clears)) is None:
+            if b.path_to([tgt], ab, cut_blocks=set(clears), cut_edges=notB_edges) is None:
                 r.ok({"B edge": b.where(sb), "then": "clear before append"})
             else:
                 r.violate(PDP, "B:no-clear", b.where(sb), "a B fragment can be appended without the buffer having been cleared: leftovers of an unfinished message are merged into the next one")
+    # (a round-4 seed delivered single-chunk messages without touching the buffer and so kept the leftovers of an
+    # abandoned message alive. Since fix e6f5fa7 / R12.11 no leftovers exist when a B fragment arrives from an honest
+    # peer, so "clear before any delivery" would demand more than the property: not checked.)
+    for bi, e_cond in then_takes:
+        if e_cond and appends and core.must_pass(b, bi, appends):
+            r.ok({"site": b.where(bi), "take": "e_bit.then(|| take(buffer)): only for an E fragment, after the append"})
+        else:
+            r.violate(PDP, "take:reassembly", b.where(bi), "the reassembly buffer is handed on without an E fragment (or before this fragment was appended): a message is split or truncated")
     # a fragment that is not a B fragment is appended only to a message in progress (non-empty buffer): the tail of a
     # message whose head was skipped by FORWARD-TSN must not start a message of its own
     def nonempty(term, meaning, *_):
@@ -434,7 +452,7 @@ def r12_8(ctx):
             for tgt, _, m in b.switch_info(sb)[1] if (sb, tgt) not in gB and _flag_edge(0x02, False)(b.switch_info(sb)[0], m)]
     for (sb, tgt) in notB:
         for ab in appends:
-            p_ = b.path_to([tgt], ab, cut_edges=set(gN))
+            p_ = b.path_to([tgt], ab, cut_edges=set(gN) | set(gB))
             if p_ is None:
                 r.ok({"non-B edge": b.where(sb), "append": "only when a message is in progress (buffer not empty)"})
             else:
@@ -446,7 +464,37 @@ def r12_8(ctx):
             r.ok({"site": b.where(bi), "take": "only on the E edge, after the append"})
         else:
             r.violate(PDP, "take:reassembly", b.where(bi), "the reassembly buffer is handed on without an E fragment (or before this fragment was appended): a message is split or truncated")
-    msg_ok = lambda v: v[0] == "call" and v[1].endswith("BytesMut::freeze") and mir.has(v, lambda x: x[0] == "call" and x[1].endswith("mem::take"))
+    msg_ok0 = lambda v: v[0] == "call" and v[1].endswith("BytesMut::freeze") and mir.has(v, lambda x: x[0] == "call" and x[1].endswith("mem::take"))
+
+    def alts(v):
+        """what a delivered payload can be: follows `(opt as Some).0` through the definitions of a multiply-defined
+        `opt` -> list of (leaf term, defining block or None)"""
+        if v[0] == "field" and v[1][0] == "variant" and v[1][2] == "Some" and v[1][1][0] == "var" and len(v[1][1]) > 2:
+            out = []
+            l = v[1][1][2]
+            for d in b.defs().get(l, []):
+                dt = b._term_def(d, 0, (l,))
+                if dt[0] == "agg" and dt[2] == "Some" and dt[3]:
+                    out.append((dt[3][0], d[1]))
+                elif dt[0] == "agg" and dt[2] == "None":
+                    continue
+                else:
+                    out.append((dt, d[1]))
+            return out or [(v, None)]
+        return [(v, None)]
+
+    def leaf_ok(leaf, blk):
+        if msg_ok0(leaf):
+            return True
+        if leaf[0] == "call" and leaf[1].endswith("bool>::then") and any(bi == blk or True for bi, e in then_takes if e) and \
+                leaf[2][1][0] == "closure" and any(pp and pp.endswith("mem::take") for _, _, pp in ctx.facts.body(leaf[2][1][1]).calls()):
+            return True
+        # the chunk's own payload, on a path that is both a B and an E fragment: a complete single-chunk message
+        if blk is not None and core.k1(b, [blk], gB)[blk] is None and core.k1(b, [blk], gE)[blk] is None and \
+                not mir.has(leaf, lambda x: x[0] == "field" and x[2] == "reassembly_buffer"):
+            return True
+        return False
+    msg_ok = lambda v: all(leaf_ok(lf, blk) for lf, blk in alts(v))
     for bi, t in sends:
         ev = b.term_operand(t["a"][1])
         if not (ev[0] == "agg" and ev[2] == "Message"):
@@ -454,15 +502,18 @@ def r12_8(ctx):
         payload = ev[3][0]
         direct = msg_ok(payload)
         via_queue = mir.has(payload, lambda x: x[0] == "call" and x[1].endswith("InboundStream::enqueue"))
-        cutE = core.k1(b, [bi], gE)[bi] is None
-        if cutE and (direct or via_queue):
+        # (an Option-carried message embodies the E test in each of its definitions, checked by leaf_ok)
+        carried = payload[0] == "field" and payload[1][0] == "variant" and payload[1][2] == "Some" and payload[1][1][0] == "var"
+        cutE = core.k1(b, [bi], gE)[bi] is None or (carried and direct)
+        if (cutE and direct) or via_queue:      # what the SSN queue releases is checked where it is fed (below)
             r.ok({"site": b.where(bi), "delivers": "take(buffer).freeze()" if direct else "messages released by the SSN queue"})
         else:
             r.violate(PDP, "deliver:Message", b.where(bi), "a Message event is emitted that is not the complete reassembly buffer of an E fragment (or a message released by the SSN queue)")
     for bi, t in enq:
         ssn, msg = b.term_operand(t["a"][1]), b.term_operand(t["a"][2])
         ssn_ok = ssn[0] == "call" and ssn[1].endswith("Buf::get_u16")
-        if core.k1(b, [bi], gE)[bi] is None and msg_ok(msg) and ssn_ok:
+        carried = msg[0] == "field" and msg[1][0] == "variant" and msg[1][2] == "Some" and msg[1][1][0] == "var"
+        if (core.k1(b, [bi], gE)[bi] is None or carried) and msg_ok(msg) and ssn_ok:
             # ordered path must not be taken for U-flagged chunks
             if core.k1(b, [bi], gU)[bi] is None or not any(b.path_to([tg], bi) for (_, tg) in gU):
                 r.ok({"site": b.where(bi), "enqueue": "(stream_seq of this chunk, whole message), not reachable on the U edge"})
@@ -557,5 +608,36 @@ def r12_10(ctx):
     return r
 
 
+def r12_11(ctx):
+    """fragments of one message carry consecutive TSNs and are processed in TSN order, so a partially reassembled
+    message is always waiting for exactly the next TSN. A FORWARD-TSN that moves the receive point jumps over that
+    TSN: the message can never complete. If its fragments stay in the reassembly buffer, the tail of a later message
+    whose own B fragment was skipped as well is appended to them and delivered as a message nobody sent (the
+    `buffer.is_empty()` test of R12.8 only protects an EMPTY buffer). So: after the receive-point store, every
+    path through handle_forward_tsn clears the reassembly buffers."""
+    r = RuleResult("R12.11", "K4", "FORWARD-TSN discards the partially reassembled message it makes impossible to complete")
+    fn = "transports::sctp::SctpInner::handle_forward_tsn::{closure#0}"
+    b = ctx.body(fn)
+    r.scope.append(fn)
+    stores = [x[0] for x in core.atomic_sites(b, "cumulative_tsn_ack", "store")]
+    r.need("receive point stores in handle_forward_tsn", len(stores), 1)
+    clears = [bi for bi, t, p in b.calls() if p and p.endswith("BytesMut::clear") and t["a"] and
+              mir.has_field(b.term_operand(t["a"][0]), "reassembly_buffer")]
+    first = min(stores)
+    # the clear sits in a loop over the channels: what must be passed is the loop (its header), with the clear inside
+    via = set(clears)
+    for h, blocks in b.loops():
+        if any(c in blocks for c in clears):
+            via.add(h)
+    rets = [i for i, blk in enumerate(b.blocks) if blk["t"]["k"] == "ret" and i not in b.cleanup]
+    if clears and all(b.path_to([t for t, _ in b.succ_edges(first)], rt, cut_blocks=via, cut_edges=b.back_edges()) is None for rt in rets):
+        r.ok({"site": b.where(clears[0]), "after": b.where(first), "rule": "every path from the receive-point store to the return passes the reassembly reset"})
+    else:
+        r.violate(fn, "fwd:no-reassembly-reset", b.where(first),
+                  "after FORWARD-TSN moves the receive point the reassembly buffers are not cleared: fragments of the message that was "
+                  "in progress stay behind and a later tail-without-head is appended to them and delivered")
+    return r
+
+
 def run(ctx):
-    return [r12_1(ctx), r12_2(ctx), r12_2b(ctx), r12_3(ctx), r12_4(ctx), r12_5(ctx), r12_6(ctx), r12_7(ctx), r12_8(ctx), r12_9(ctx), r12_10(ctx)]
+    return [r12_1(ctx), r12_2(ctx), r12_2b(ctx), r12_3(ctx), r12_4(ctx), r12_5(ctx), r12_6(ctx), r12_7(ctx), r12_8(ctx), r12_9(ctx), r12_10(ctx), r12_11(ctx)]
